@@ -333,6 +333,10 @@ func c10GenDefault(r *Rng, c *c11Cfg, t c11Ref, depth int) *c10Val {
 		switch t.ID {
 		case c11IDInt:
 			v := &c10Val{K: 1, I: r.Intn(101) - 50, Rep: r.PickI([]int{0, 0, 0, 1, 2, 3, 4, 5})}
+			if r.Chance(20) {
+				v.I = 0 // the zero value of the carrying Go type: an entry that holds it is still an entry
+				return v
+			}
 			if r.Chance(30) {
 				v.I = c10Ints[r.Intn(len(c10Ints))]
 			}
@@ -345,6 +349,9 @@ func c10GenDefault(r *Rng, c *c11Cfg, t c11Ref, depth int) *c10Val {
 			v.Rep = r.PickI([]int{0, 0, 0, 1})
 			return v
 		case c11IDString, c11IDID:
+			if r.Chance(12) {
+				return &c10Val{K: 2, S: "", Rep: r.PickI([]int{0, 0, 0, 1})}
+			}
 			return &c10Val{K: 2, S: r.Pick(c10Strings), Rep: r.PickI([]int{0, 0, 0, 1})}
 		case c11IDBoolean:
 			return &c10Val{K: 3, B: r.Bool(), Rep: r.PickI([]int{0, 0, 0, 1})}
